@@ -40,10 +40,6 @@ DISCHARGED = {
 # against the real parser in a scratch worktree (counting allocator); one named site each, with the bound that the rule's
 # idiom table does not recognise.
 DISCHARGED_R2 = {
-    "C02.R2|cascette_formats::tvfs::est_table::<EstTable as BinRead>::read_options|vec-from-elem|binrw args passed by the parent parser":
-        "the only parser caller (TvfsFile::parse, tvfs/mod.rs) checks `est_table_offset + est_table_size <= data.len()` before passing the "
-        "size as binrw argument (46-byte header with size 0xFFFFFFFF -> Err, largest request 88 bytes); only a direct call of the public "
-        "EstTable::read_options with a hostile argument allocates, which is not a byte-parser path",
     "C02.R2|cascette_formats::encoding::page::<EncodingPage as BinRead>::read_options|vec-from-elem|binrw args passed by the parent parser":
         "EncodingPage<T> has no caller in the workspace; the largest header-derived argument any parser could pass is the u16 page size in "
         "KiB (<= 64 MiB, paid once per page actually present) - the 16-bit exemption of the rule, lost through the usize argument",
@@ -129,6 +125,9 @@ def binread_adts(prog):
 def int_width_wide(ty):
     ty = strip_regions(ty or "")
     ty = ty.lstrip("&")
+    m = re.match(r"^core::option::Option<(.*)>$", ty)
+    if m:
+        ty = m.group(1)
     return bool(WIDE.match(ty))
 
 
@@ -455,6 +454,32 @@ def r2_alloc(ctx, ents, cl):
                 if cs and fields_w and all(caller_bounds(cb, cc, fields_w) for (cb, cc) in cs):
                     g = caller_bounds(cs[0][0], cs[0][1], fields_w)
                     ctx.ok(rule, [bid, sink_tag(what), c.bb], "bounded in the caller: %s" % g, c.loc(), sample={"sink": what, "at": c.loc(), "bound": g})
+                    continue
+            if wide and all(t.ident[0] == "args" for t in wide):
+                # a child BinRead impl sized by its binrw arguments: what every parser caller passes decides (the child cannot know
+                # how much input is left); a caller that passes a wide input-derived value without bounding it is the violation
+                root = prog.bodies.get(b.root) if b.root else b
+                ai = next((i for i in range(1, root.argc + 1) if root.local_name(i) in ("args", "_args") or re.match(r"^\(", root.local_ty(i) or "")), root.argc)
+                cs = [(prog.bodies[s_id], cc) for (s_id, how, cc) in prog.callers.get(root.id, []) if cc is not None and s_id in prog.bodies and s_id in cl
+                      and (prog.bodies[s_id].root or s_id) != root.id]
+                unb = []
+                for (cb, cc) in cs:
+                    if ai - 1 >= len(cc.args) or op_local(cc.args[ai - 1]) is None:
+                        continue
+                    csl = slice_with_clamps(cb, cc.args[ai - 1])
+                    cts = [t for t in classify_sources(prog, cb, csl, br) if t.wide]
+                    if cts and not has_clamp(cb, csl) and not guard_on(prog, cb, cc, csl, cts):
+                        unb.append((cb, cc, cts))
+                if cs and not unb:
+                    ctx.ok(rule, [bid, sink_tag(what), "args-bounded-by-callers", c.bb], "every parser caller bounds (or does not derive from input) the binrw argument",
+                           c.loc(), sample={"sink": what, "at": c.loc(), "callers": [ctx._stable(cb.id) for (cb, cc) in cs]})
+                    continue
+                if unb:
+                    cb, cc, cts = unb[0]
+                    ctx.bad(rule, [bid, sink_tag(what), "args <- %s" % ctx._stable(cb.id).split("::")[-1], cts[0].what.split(" (")[0]],
+                            "%s sizes %s at %s from its binrw argument, and %s passes %s as that argument at %s without bounding it by what the input holds: a few "
+                            "header bytes make the parser request gigabytes" % (bid, what, c.loc(), ctx._stable(cb.id), cts[0].what, cc.loc()), c.loc(),
+                            {"caller": cb.id, "call": cc.loc()})
                     continue
             if wide:
                 k0 = ctx._stable("|".join([rule, bid, sink_tag(what), wide[0].what.split(" (")[0]]))
